@@ -660,6 +660,20 @@ def anomaly_cases(rng, tier):
         for k in (1, 2):
             for tail in ["(b;", "(b,c;", "((c,d),e;", "(c:1,d:2;", "(b);", "(c,d);", ",(c,d);", "b;", ";", "(", "(b", "(b;(c,d);"]:
                 emit(first + ")" * k + tail, "reopened")
+    # every way of going on after the tree is over: a prefix that brings the parser back to level 0 with an empty or popped
+    # stack (closed tree, + label / length / comment, closed empty group, comma at level 0, unmatched ')', several of these,
+    # nothing at all) x every kind of continuation ('(' group closed or not, label, ',', ':' length, '[' comment, ')')
+    PRE = ["(a,b)", "(a,b)x", "(a,b):1", "(a,b)x:3", "(a,b)[c]", "(a,b)0.9[c]:2", "()", "(a,)", "(,)", "(a,b),", "(a,b)x,", "(),", "a,", "a",
+           "a:1", ",", "", "(a,b))", "(a,b)),", "(a,b)x,y", "(a,b),,", "(a,b)()", "((a,b),c)"]
+    CONT = ["(c,d)", "(c,d", "(c", "((c,d),e)", "()", "(", "x", "x:2", ",", ",x", ",(c,d)", ",(c,d)y", "(c,d)y:2", ":1", "[c]", "[c", ")", "))", ")(c,d)"]
+    for pre in PRE:
+        for cont in CONT:
+            emit(pre + cont + ";", "reopened/" + ("closed" if pre.endswith(")") else "comma" if pre.endswith(",") else "label"))
+            if tier != "search" and cont[-1] not in ")":
+                out.append(case("newick", pre + cont, "anomaly:reopened/eof"))
+    for _ in range({"quick": 150, "thorough": 5000, "search": 60}[tier]):
+        text = rng.choice(PRE) + "".join(rng.choice(CONT) for _ in range(rng.randint(2, 3))) + rng.choice([";", ";", ""])
+        emit(text, "reopened/chained")
     # random trees with 2..4 composed anomalies
     for _ in range({"quick": 220, "thorough": 20000, "search": 120}[tier]):
         t = rand_tree(rng, lo=2, hi=8)
@@ -774,6 +788,44 @@ def deep(rng, fmt, depth):
         s = '{"children":[%s,{"name":"b%d"}]}' % (s, i)
     return '{"version":"v2","tree":%s}' % s
 
+def nexus_blocks_cases(rng, tier):
+    """Nexus files with two or three TREES blocks: trees in every block, an empty first / middle / last block, a TRANSLATE
+    table in the first, the last, or every block, a TAXA block before / between, a broken tree in the last block"""
+    out = []
+    def block(trees, table):
+        s = "BEGIN TREES;\n"
+        if table:
+            s += "  TRANSLATE\n" + ",\n".join("    %d %s" % (i + 1, n) for i, n in enumerate(table)) + "\n  ;\n"
+        for name, t in trees:
+            s += "  TREE %s = %s\n" % (name, t)
+        return s + "END;\n"
+    names = ["a", "b", "c", "d"]
+    plain = ["(a,b,(c,d));", "((a,b),(c,d));", "(a,(b,(c,d)));", "((a,c),b,d);"]
+    idx = ["(1,2,(3,4));", "((1,2),(3,4));", "(1,(2,(3,4)));", "((1,3),2,4);"]
+    taxa = "BEGIN TAXA;\n DIMENSIONS NTAX=4;\n TAXLABELS a b c d;\nEND;\n"
+    n = 0
+    for sizes in [(1, 1), (2, 1), (1, 2), (0, 1), (1, 0), (0, 0), (1, 1, 1), (1, 0, 1), (2, 0, 0), (0, 2, 0)]:
+        for tables in ("none", "first", "last", "all"):
+            for tx in ("", "before", "between"):
+                if tier == "search" and (tx or len(sizes) > 2):
+                    continue
+                blocks = []
+                k = 0
+                for bi, sz in enumerate(sizes):
+                    tab = tables == "all" or (tables == "first" and bi == 0) or (tables == "last" and bi == len(sizes) - 1)
+                    src = idx if (tab or (tables == "first" and bi > 0 and n % 2 == 0)) else plain
+                    trees = []
+                    for _ in range(sz):
+                        trees.append(("t%d" % k if n % 3 else "tree0", src[k % 4])); k += 1
+                    blocks.append(block(trees, names if tab else None))
+                doc = "#NEXUS\n" + (taxa if tx == "before" else "") + blocks[0] + (taxa if tx == "between" else "") + "".join(blocks[1:])
+                out.append(case("nexus", doc, "nexus-blocks:%s/%s" % ("-".join(map(str, sizes)), tables)))
+                n += 1
+    out.append(case("nexus", "#NEXUS\n" + block([("t0", plain[0])], None) + block([("t1", "(a,b;")], None), "nexus-blocks:broken-last"))
+    out.append(case("nexus", "#NEXUS\n" + block([("t0", "(a,b;")], None) + block([("t1", plain[0])], None), "nexus-blocks:broken-first"))
+    out.append(case("nexus", "#NEXUS BEGIN TREES;TREE a=(a,b);END;BEGIN TREES;END;", "nexus-blocks:minimal"))
+    return out
+
 FIXED = [
     ("nexus", "#NEXUS\nBEGIN TREES;\nTREE t = (a,b);\nTREE t = (c,d);\nTREE u = (e,f);\nTREE t = (g,h);\nEND;\n"),
     ("nexus", "#NEXUS\nBEGIN TREES;\nTREE tree0 = (a,b);\nEND;\nBEGIN TREES;\nTREE tree0 = (c,d);\nEND;\n"),
@@ -872,7 +924,7 @@ def gen(rng, tier):
     for j, bc in enumerate(bigs):
         out.insert(min(len(out), j * 200 + 7), bc)
     # spread over the chunks: a worker that dies on one of them is restarted by the runner for the cases that follow
-    hs = huge_cases(rng, tier) + anomaly_cases(rng, tier)
+    hs = huge_cases(rng, tier) + anomaly_cases(rng, tier) + nexus_blocks_cases(rng, tier)
     step = max(1, len(out) // max(1, len(hs)))
     for j, hc in enumerate(hs):
         out.insert(min(len(out), j * (step + 1) + 3), hc)
